@@ -7,7 +7,7 @@
 
     C09_in_scope                  namespaces_in_scope enumerates exactly scopeSpec, each prefix once,
                                   never xmlns="", always xml
-    C09_ns_for_prefix             namespace_for_prefix = scopeSpec (full strength since /repo fb51e1d:
+    C09_ns_for_prefix             namespace_for_prefix = scopeSpec (full strength since /repo 6a9b742:
                                   only xmlns="" hides a binding; all trees, nodes, prefixes)
     C09_ns_for_prefix_in_scope    namespace_for_prefix(p) = Some(ns) iff namespaces_in_scope lists (p, ns)
     C09_defined                   is_prefix_defined is implied by a binding
@@ -81,7 +81,7 @@ theorem C09_in_scope (t : Tree) (path : Path) (l : List (Nat × Nat))
     exact ⟨ns, (mem_namespacesInScopeChain chain _ _).2 hns⟩
 
 /-- `namespace_for_prefix(p)` is the specification's binding of `p` — full strength since /repo
-    fb51e1d (before, a non-empty prefix bound to the empty URI was reported as `None` while
+    6a9b742 (before, a non-empty prefix bound to the empty URI was reported as `None` while
     `namespaces_in_scope` listed it): every tree, every node, every prefix. -/
 theorem C09_ns_for_prefix (t : Tree) (path : Path) (p : Nat) (r : Option Nat)
     (h : namespaceForPrefix t path p = some r) :
